@@ -365,8 +365,10 @@ def one_case(rng, out, seed, idx, tmp, ops, pend, model_ok):
     exp_blocks, exp_issues, exp_end, consumed = [], [], "exhausted", 0
     for i, ev in enumerate(U["events"]):
         if i >= len(rec_f):
-            out.fail("the predicate was not consulted for a block the unfiltered read delivers", dict(case, filter=spec),
-                     {"calls": rec_f}, {"events": len(U["events"])}, key="calls:missing")
+            out.fail("a block was interpreted (and the read ended) before the predicate was consulted about it"
+                     if F["ending"] != "exhausted" else
+                     "the predicate was not consulted for a block the unfiltered read delivers", dict(case, filter=spec),
+                     {"calls": rec_f, "ending": F["ending"]}, {"events": len(U["events"])}, key="calls:missing")
             ok = False
             break
         consumed = i + 1
